@@ -60,6 +60,8 @@ def b_answers(job):
     queries = [{"c": "get-model"}] if not g.arr else []
     if job.get("mode") == "interface":
         body = G.interface_history(g, rng, queries=queries)
+    elif job.get("mode") == "dlgraph":
+        body = G.dlgraph_history(g, rng, queries=queries)
     elif job.get("mode") == "cnf":
         body = cnf_history(g, rng, n_atoms=job.get("n_atoms", 8), levels=job.get("levels", 4))
         if queries:
@@ -251,7 +253,9 @@ def b_configs(job):
     """C05: the same script under several configurations and logic embeddings."""
     rng = random.Random(job["seed"])
     g = G.Gen(rng, job["logic"], nnum=job.get("nnum", 3), maxconst=job.get("maxconst", 4))
-    if job.get("mode") == "cnf":
+    if job.get("mode") == "dlgraph":
+        body = G.dlgraph_history(g, rng)
+    elif job.get("mode") == "cnf":
         # clause sets over few, closely related atoms (small constants: equal and opposite bounds, zero-weight cycles)
         body = cnf_history(g, rng, n_atoms=job.get("n_atoms", 7), levels=job.get("levels", 4))
     else:
@@ -387,16 +391,20 @@ def b_cores(job):
     body = unsat_biased_body(g, rng, n_named=job.get("n_named", 4), p_named=job.get("p_named", 0.75), queries=q,
                              histories=job.get("histories", True), n_atoms=job.get("n_atoms", 3))
     if rng.random() < job.get("p_hidden_unsat", 0.2):
-        # the unnamed assertions are contradictory on their own: the minimal named core is empty
+        # the unnamed assertions are contradictory on their own, but a refutation is found earlier through a named
+        # assertion: the minimal named core is empty
         tb = g.tb
-        a = rng.choice(g.bools)
-        b = rng.choice(g.bools)
-        extra = rng.choice([[a, tb.app("not", [a])],
-                            [tb.app("or", [a, b]), tb.app("not", [a]), tb.app("not", [b])] if a != b else [a, tb.app("not", [a])]])
-        asserts = [i for i, c in enumerate(body) if c["c"] == "assert"]
-        for f in extra:
-            i = rng.choice(asserts) if asserts and rng.random() < 0.7 else 0
-            body.insert(i, {"c": "assert", "t": f, "nm": "", "inner": []})
+        a, b = rng.sample(g.bools, 2)
+        na = tb.app("not", [a])
+        first_check = next((i for i, c in enumerate(body) if c["c"] == "check-sat"), len(body))
+        # (no formula twice: the same formula asserted under a name and without one is a different, known matter)
+        tail = rng.choice([[tb.app("or", [na, b]), tb.app("not", [b])], [tb.app("or", [na, tb.app("not", [b])]), b]])
+        ins = [{"c": "assert", "t": na, "nm": "hz%d" % rng.randint(1, 9), "inner": []}] + \
+              [{"c": "assert", "t": f, "nm": "", "inner": []} for f in tail]
+        if rng.random() < 0.3:
+            rng.shuffle(ins)
+        body[first_check:first_check] = ins
+        body.insert(rng.choice([0, 0, max(0, first_check - 1)]), {"c": "assert", "t": a, "nm": "", "inner": []})
     cfg = job.get("cfg", "c0")
     cmds = G.preamble(g, opts + _opts(cfg)) + body
     fam = C.Family(g)
